@@ -16,6 +16,8 @@ import (
 // C12 — the base-field layer computes exact, canonical arithmetic in F_p.
 
 type c12Case struct {
+	// Conc != 0: a concurrent batch (8 goroutines on objects they own) derived from this seed; other fields unused.
+	Conc uint64 `json:"concurrent_seed,omitempty"`
 	Op    string `json:"op"`
 	A     string `json:"a,omitempty"`
 	B     string `json:"b,omitempty"`
@@ -32,7 +34,7 @@ func init() {
 			"operands from the structured list mod p in the canonical domain and Montgomery-domain structured values (stored limbs 0,1,p-1,2^k,2^k±1,2^256-p±1,p with one limb perturbed), " +
 			"operand pairs whose stored forms sum/differ to p-1,p,p+1,2^256-1,2^256,2^256+1,0,1 (pre-reduction values in [p,2^256) that uniform sampling meets with probability 2^-223), limb-structured 4-tuples, PRNG; " +
 			"parser inputs p-40..p+40, p with each limb perturbed, 2^256-1; 48-byte inputs k*p±d, halves structured. Oracle: math/big mod p on the stored limbs (value = limbs*2^-256 mod p); every stored result must be < p. " +
-			"non-trivial = an operand not in {0,1}; distinct by the whole case.",
+			"non-trivial = an operand not in {0,1}; distinct by the whole case. Plus concurrent batches: 8 goroutines run the operations simultaneously on objects they own, each result judged against the oracle.",
 		NewCase:  func() any { return &c12Case{} },
 		Generate: c12Generate,
 		Run:      c12Run,
@@ -47,6 +49,8 @@ func init() {
 }
 
 func c12Generate(c *mon.Ctx) {
+	concBatches(c, c.N(6, 300), func(seed uint64) any { return &c12Case{Conc: seed} })
+
 	p := oracle.P
 	st := gen.Structured(p)
 	hx := func(v *big.Int) string { return fmt.Sprintf("%x", v) }
@@ -185,6 +189,11 @@ func c12Generate(c *mon.Ctx) {
 
 func c12Run(c *mon.Ctx, csAny any) {
 	cs := csAny.(*c12Case)
+
+	if cs.Conc != 0 {
+		c12RunConc(c, cs.Conc)
+		return
+	}
 	p := oracle.P
 
 	op := cs.Op
